@@ -23,23 +23,60 @@ var refAssumption = "the frozen protocol table (design/protocol-table.md) transc
 func init() {
 	specs["C01"] = &Spec{ID: "C01", Level: "exploration", Parallel: 8,
 		Assumptions: []string{refAssumption, hookAssumption, "32-bit arguments are sampled (boundaries, bit walks, random), not enumerated"},
-		Plan: func(tier string) []Batch { return same(n(tier, 8, 16), Batch{Timeout: 20 * time.Minute}) }}
+		Plan:        func(tier string) []Batch { return same(n(tier, 8, 16), Batch{Timeout: 20 * time.Minute}) }}
 }
 
 func init() {
 	specs["C02"] = &Spec{ID: "C02", Level: "exploration", Parallel: 8,
 		Assumptions: []string{refAssumption, hookAssumption, "process time zone UTC (zone dependence is C13's subject)", "two digit system years >= 69, BCD year 0000 and the date 0001-01-01 are outside the stated domain (don't-care)"},
-		Plan: func(tier string) []Batch { return same(n(tier, 8, 16), Batch{Timeout: 30 * time.Minute}) }}
+		Plan:        func(tier string) []Batch { return same(n(tier, 8, 16), Batch{Timeout: 30 * time.Minute}) }}
 }
 
 func init() {
 	specs["C12"] = &Spec{ID: "C12", Level: "exploration", Parallel: 12,
 		Assumptions: []string{"beyond the enumerated lengths the coding is position independent (stated in the property); the random part samples lengths up to 64"},
-		Plan: func(tier string) []Batch { return same(n(tier, 12, 24), Batch{Timeout: 20 * time.Minute}) }}
+		Plan:        func(tier string) []Batch { return same(n(tier, 12, 24), Batch{Timeout: 20 * time.Minute}) }}
 	specs["C15"] = &Spec{ID: "C15", Level: "exploration", Parallel: 16,
 		Assumptions: []string{"strings that contain a dotted quad but are not exactly a.b.c.d[:port] in canonical decimal are don't-care (the statement is silent about them)"},
-		Plan: func(tier string) []Batch { return same(n(tier, 16, 32), Batch{Timeout: 30 * time.Minute, Procs: 1}) }}
+		Plan:        func(tier string) []Batch { return same(n(tier, 16, 32), Batch{Timeout: 30 * time.Minute, Procs: 1}) }}
 	specs["C16"] = &Spec{ID: "C16", Level: "exploration", Parallel: 8,
 		Assumptions: []string{hookAssumption, "DateTime.Before is judged for instants from 1970 on, as the property states"},
-		Plan: func(tier string) []Batch { return same(n(tier, 8, 16), Batch{Timeout: 30 * time.Minute}) }}
+		Plan:        func(tier string) []Batch { return same(n(tier, 8, 16), Batch{Timeout: 30 * time.Minute}) }}
+}
+
+func init() {
+	specs["C07"] = &Spec{ID: "C07", Level: "exploration", Parallel: 8,
+		Assumptions: []string{hookAssumption, "Wiegand-26 = decimal FFFNNNNN, at most 8 digits, F<=255, N<=65535; unknown card formats match nothing"},
+		Plan:        func(tier string) []Batch { return same(n(tier, 8, 16), Batch{Timeout: 40 * time.Minute}) }}
+}
+
+var currentSeed uint64 = 1
+
+func zoneBatches(k int, mode string, timeout time.Duration) []Batch {
+	out := []Batch{}
+	for _, z := range pickZones(k, currentSeed) {
+		out = append(out, Batch{Mode: mode, Env: []string{"TZ=" + z}, Timeout: timeout, Procs: 1})
+	}
+	return out
+}
+
+func init() {
+	specs["C05"] = &Spec{ID: "C05", Level: "exploration", Parallel: 16,
+		Assumptions: []string{refAssumption, "in-domain date-times are civil times that exist in the process zone (built UTC->local); system dates 2000..2068", "tz database: the one installed under /usr/share/zoneinfo (fallback: Go's embedded time/tzdata)"},
+		Plan: func(tier string) []Batch {
+			b := same(n(tier, 4, 8), Batch{Mode: "utc-deep", Timeout: 20 * time.Minute})
+			return append(b, zoneBatches(n(tier, 40, 0), "tz", 10*time.Minute)...)
+		}}
+}
+
+func init() {
+	specs["C18"] = &Spec{ID: "C18", Level: "exploration", Parallel: 8,
+		Assumptions: []string{"layouts are built with reflect.StructOf (exported field names; one level of embedding through an anonymous StructOf struct)", "for byte fields an unprefixed value: digit string is hexadecimal by the codec's own convention (a decimal reading is not asserted)", "process time zone UTC plus three odd zones"},
+		Plan: func(tier string) []Batch {
+			b := same(n(tier, 8, 16), Batch{Timeout: 20 * time.Minute})
+			for _, z := range []string{"America/Santiago", "Asia/Kathmandu", "Pacific/Apia"} {
+				b = append(b, Batch{Env: []string{"TZ=" + z}, Timeout: 20 * time.Minute})
+			}
+			return b
+		}}
 }
